@@ -473,9 +473,12 @@ class MemOrchestrator(BaseOrchestrator):
         new_record: InvocationStatusRecord,
     ) -> InvocationStatusRecord:
         """Sets the status record of a specific invocation."""
-        if prev_status_record:
-            self.status_index[prev_status_record.status].discard(invocation_id)
+        # Add to the new index before leaving the old one: concurrency control looks
+        # invocations up by status index without this invocation's lock, and must never
+        # see a PENDING/RUNNING invocation in no index at all.
         self.status_index[new_record.status].add(invocation_id)
+        if prev_status_record and prev_status_record.status != new_record.status:
+            self.status_index[prev_status_record.status].discard(invocation_id)
         self.invocation_status_record[invocation_id] = new_record
         return new_record
 
